@@ -490,7 +490,7 @@ func checkC11(w *World) {
 	sort.Strings(roots)
 	for _, nt := range roots {
 		bad := ""
-		for _, fn := range w.handlerClosure(f.Handlers[nt].Fn) {
+		for _, fn := range w.handlerClosureH(f.Handlers[nt]) {
 			for g := range staticReach(fn, func(x *ssa.Function) bool { return fnPkgKey(x) == "exec" && x != r.ExecContext }) {
 				allInstrs(g, func(in ssa.Instruction) {
 					if c, ok := in.(ssa.CallInstruction); ok && c.Common().IsInvoke() {
